@@ -233,3 +233,6 @@ func TestC02Multi(t *testing.T) {
 		return c
 	}, checkC20)
 }
+
+// C17 against a real net/http server on the loopback interface.
+func TestC17Real(t *testing.T) { RunProp(t, "C17", "real-net-http-server", genRealCase, checkC17Real) }
